@@ -119,6 +119,8 @@ def verify_function(qual, prop, program=None, reg=None, self_cls=None, tag=None,
             fr.params = dict(env)
             # requires
             for r in c.requires:
+                if not calls.in_force(r, prop):
+                    continue
                 st = st.assume(E.spec_bool(r, st, env, st, fr))
             cov = _obl(E, "%s.%s.cover.requires" % (prop, fname), "cover", "requires satisfiable")
             cov.expect = "sat"
